@@ -11,6 +11,9 @@ CHECKS = {
  "C02": dict(engine="hypothesis-given", technique="generated plasma states / tables / windows; oracles: total on covering window, bin-average by grid nesting, in-window fraction vs aligned reference grid, absolute erf / hyp2f1 bins from documented formulas, pi+sigma=no, linearity",
              text="For each of the 7 line-shape classes, generated states (T<=0, flow, B at a chosen angle, un-normalised view), tables and spectral windows (containing / cutting / beside / one bin / fine). Decides normalisation (1e-9 R for Gaussian-built shapes), bin averaging (nesting), in-window fraction, polarisation split and stated ratios, zero-width. Stark is decided to 3e-4 R with the default integrator on bins <= FWHM/2 and to 2e-6 R with a tight integrator; coarser Stark bins are a recorded known finding.",
              ref="DESIGN.md section 3, C02"),
+ "C04": dict(engine="hypothesis-given", technique="generated beams/plasmas/stopping tables; oracle: independent cross-section quadrature vs particle-rate * exp(-tau) with tau by scipy.quad over own transforms; RK4 streamline invariants",
+             text="Generated beam parameters, placements, attenuator settings, 1-3 ion species with non-uniform profiles and analytic stopping coefficients. The cross-section integral of Beam.density (48x48 Gauss-Legendre; polar rule inside the clamp ellipse) must equal P/(E m)/v * exp(-tau(z)) within the a-priori error bound of the documented trapezoid/linear-interpolation scheme; plus monotone on-axis decay, zeros outside [0,L] and outside the clamp, unit direction field whose streamlines keep x/sigma_x and y/sigma_y.",
+             ref="DESIGN.md section 3, C04"),
  "C06": dict(engine="hypothesis-stateful", technique="stateful model-based testing: repository vs dict reference model, bit-for-bit read-back, file-set and stray-write invariants",
              text="Rule-based state machine over all add_*/update_* functions of the 14 rate families (batched updates, rejected updates, reads) against a dict model keyed as the property states; every key is read back bit for bit (uint64 view), never-written neighbours must raise RuntimeError, the set of files must equal the set implied by the writes and a redirected HOME must stay empty. Exploration of generated histories (<=30 steps).",
              ref="DESIGN.md section 3, C06"),
